@@ -36,8 +36,8 @@ var vfsGuarded = map[string]guardSpec{
 }
 
 var vfsGuardExceptions = map[string]string{
-	"(*ls.Hydrator).Init|Hydrator.txid|write":            "runs before the hydrator is shared with any goroutine (called from initHydration before the background restore starts)",
-	"(*ls.Hydrator).Close|Hydrator.txid|read":            "runs after the VFS file's goroutines were stopped (VFSFile.Close waits for them first)",
+	"(*ls.Hydrator).Init|Hydrator.txid|write":             "runs before the hydrator is shared with any goroutine (called from initHydration before the background restore starts)",
+	"(*ls.Hydrator).Close|Hydrator.txid|read":             "runs after the VFS file's goroutines were stopped (VFSFile.Close waits for them first)",
 	"(*ls.VFSFile).openNewDatabase|VFSFile.index|write":   "initialisation inside Open, before the monitor goroutines are started",
 	"(*ls.VFSFile).openNewDatabase|VFSFile.pending|write": "initialisation inside Open, before the monitor goroutines are started",
 	"(*ls.VFSFile).openNewDatabase|VFSFile.commit|write":  "initialisation inside Open, before the monitor goroutines are started",
@@ -188,7 +188,7 @@ func runC18(c *Ctx) {
 	if fn := c.fn("R2-page-fetch", "(*ls.VFSFile).ReadAt"); fn != nil {
 		const rule = "R2-page-fetch"
 		n := 0
-		for _, fp := range callsTo(fn, nameIs("ls.FetchPage")) {
+		for _, fp := range callsToDeep(fn, nameIs("ls.FetchPage")) {
 			n++
 			a := fp.Common().Args
 			isElem := func(field string) VM {
